@@ -456,9 +456,64 @@ impl Model for StackModel {
     }
 }
 
+/// Long stacks (sizes around 2^8, where a narrow counter would wrap, and bulk insertions of hundreds of
+/// elements): every operation of a list applied to every (contents, maximum) start state of a family,
+/// compared with the same reference as the BFS.
+fn long_stacks(run: &mut Run) -> u64 {
+    let quick = run.quick();
+    let sizes: Vec<usize> = if quick { vec![254, 255, 256, 257, 300] } else { vec![126, 127, 128, 129, 254, 255, 256, 257, 258, 300, 511, 512, 513, 1000] };
+    let mut n = 0u64;
+    for &len in &sizes {
+        let vals: Vec<u8> = (0..len).map(|i| (i % 251) as u8).collect();
+        for max in [len.saturating_sub(1), len, len + 1, len + 2, len + 3, len + 300, usize::MAX] {
+            let pre = stack_of::<u8>(vals.clone(), max);
+            let big: Vec<u8> = (0..300usize).map(|i| (255 - i % 256) as u8).collect();
+            let mut ops = vec![Op::Push(7), Op::Pop, Op::Pop2, Op::Pop3, Op::Top, Op::Top2, Op::Top3, Op::Size, Op::IsEmpty, Op::MaxSize];
+            for k in [0usize, 1, 2, 3, 255, 256, 257, len - 1, len, len + 1] {
+                ops.push(Op::Discard(k));
+            }
+            for l in [vec![9u8], vec![9, 8], vec![9, 8, 7], big.clone(), big[..255].to_vec(), big[..256].to_vec(), big[..257].to_vec()] {
+                ops.push(Op::PushMany(l.clone()));
+                ops.push(Op::TryExtend(l.clone(), false));
+                ops.push(Op::TryExtend(l, true));
+            }
+            for c in [0usize, 255, 256, 257, len, len + 1] {
+                ops.push(Op::SetMax(c));
+            }
+            for op in &ops {
+                n += 1;
+                let (post, _ret, problem) = step(&pre, op);
+                if let Some(p) = problem {
+                    let name = format!("{op:?}");
+                    let name = name.split('(').next().unwrap_or("op").to_lowercase();
+                    run.violation(
+                        format!("stack/long/{name}"),
+                        format!("stack of {len} elements (max {}) --{}--> {}", if max == usize::MAX { "unbounded".to_string() } else { max.to_string() }, { let s = format!("{op:?}"); s.chars().take(60).collect::<String>() }, p.chars().take(300).collect::<String>()),
+                        json!({"check":"C04","long":{"len":len,"max":max.to_string()},"ops":[op_to_json(op)]}),
+                    );
+                }
+                // a second operation from the state reached (two-step histories)
+                for op2 in [Op::Pop3, Op::Top3, Op::Push(1), Op::Discard(2), Op::Size] {
+                    n += 1;
+                    if let (_, _, Some(p)) = step(&post, &op2) {
+                        run.violation(
+                            format!("stack/long/{}", format!("{op2:?}").split('(').next().unwrap_or("op").to_lowercase()),
+                            format!("stack of {len} elements (max {max}) after {}: --{op2:?}--> {}", format!("{op:?}").chars().take(40).collect::<String>(), p.chars().take(300).collect::<String>()),
+                            json!({"check":"C04","long":{"len":len,"max":max.to_string()},"ops":[op_to_json(op), op_to_json(&op2)]}),
+                        );
+                    }
+                }
+            }
+        }
+    }
+    run.bound("long.sizes", json!(sizes));
+    run.note("long.transitions", json!(n));
+    n
+}
+
 pub fn run(run: &mut Run) {
     let (values, max_len, bulk) = if run.quick() {
-        (vec![1u8, 2, 3], 6usize, 3usize)
+        (vec![1u8, 2, 3], 7usize, 3usize)
     } else {
         (vec![1u8, 2, 3, 4], 8usize, 3usize)
     };
@@ -495,9 +550,13 @@ pub fn run(run: &mut Run) {
     run.transitions = m.transitions.load(Ordering::Relaxed);
     run.traces_validated = m.transitions.load(Ordering::Relaxed);
     run.evaluations = m.transitions.load(Ordering::Relaxed);
+    let ln = long_stacks(run);
+    run.transitions += ln;
+    run.traces_validated += ln;
+    run.evaluations += ln;
     let kinds = m.outcome_kinds.lock().unwrap().clone();
     run.distinct_nontrivial = kinds.len() as u64;
-    run.rule = "stateright BFS over all reachable (contents, max) states of the real Stack<u8>; every enabled operation is applied to a clone of every state and compared with the Vec+capacity reference on the same pre-state; distinct_nontrivial = distinct (operation, outcome kind) pairs observed".into();
+    run.rule = "stateright BFS over all reachable (contents, max) states of the real Stack<u8>; every enabled operation is applied to a clone of every state and compared with the Vec+capacity reference on the same pre-state; plus long stacks (254..300 elements, thorough 126..1000; maxima around the size) x an operation list incl. bulk insertions of 255..300 elements, one and two steps deep; distinct_nontrivial = distinct (operation, outcome kind) pairs observed".into();
     run.bound("values", json!(values));
     run.bound("max_contents", json!(max_len));
     run.bound("bulk_list_len", json!(bulk));
@@ -542,6 +601,11 @@ pub fn replay(v: &Value) -> bool {
         .map(|a| a.iter().filter_map(op_from_json).collect())
         .unwrap_or_default();
     let mut s: Stack<u8> = Stack::default();
+    if let Some(len) = v["long"]["len"].as_u64() {
+        let max = v["long"]["max"].as_str().and_then(|m| m.parse::<usize>().ok()).unwrap_or(usize::MAX);
+        s = stack_of::<u8>((0..len as usize).map(|i| (i % 251) as u8).collect(), max);
+        println!("start: stack of {len} elements, max {max}");
+    }
     let mut ok = true;
     for op in &ops {
         let (post, ret, problem) = step(&s, op);
